@@ -74,3 +74,26 @@ Theorem old_ebuild_want_compressed relpath tags unc wm :
   = if existsb (fun t => ustr_eqb t [69;66;85;73;76;68]) tags then Some false
     else Some ((wm <=? unc)%Z && negb (ustr_eqb relpath s_Manifest)).
 Proof. reflexivity. Qed.
+
+(* C13, reading side: the entries (and the signed flag) obtained from a Manifest file do not depend on whether
+   the file is stored compressed - given only that the stored bytes decompress to the same text *)
+Section Transparent.
+  Variable L : hashlib.
+  Variable decompress : list N -> list N -> res (list N).
+  Variable pgp_verify : list N -> res sigdata.
+
+  Theorem read_transparent w1 p1 fmt i1 d1 raw w2 p2 i2 v es sg st1 :
+    compressed_suffix p1 = Some fmt -> mem_str fmt codec_suffixes = true ->
+    p_open_file w1 p1 = Ok i1 -> p_read w1 i1 = Ok d1 -> decompress fmt d1 = Ok raw ->
+    compressed_suffix p2 = None -> p_open_file w2 p2 = Ok i2 -> p_read w2 i2 = Ok raw ->
+    read_manifest decompress pgp_verify w1 p1 v = Ok (es, sg, st1) ->
+    forall st2, p_fstat w2 i2 = Ok st2 -> read_manifest decompress pgp_verify w2 p2 v = Ok (es, sg, st2).
+  Proof.
+    intros Hc1 Hm Ho1 Hr1 Hd Hc2 Ho2 Hr2 H st2 Hs2. unfold read_manifest in *.
+    rewrite Hc1, Ho1 in H. cbn [bind] in H. rewrite Hr1 in H. cbn [bind] in H. rewrite Hm, Hd in H. cbn [bind] in H.
+    rewrite Hc2, Ho2. cbn [bind]. rewrite Hr2. cbn [bind].
+    destruct (utf8_decode raw) as [t|]; cbn [bind] in *; [|discriminate].
+    destruct (load_with_env t v pgp_verify) as [[[es0 sg0] x]|]; cbn [bind] in *; [|discriminate].
+    rewrite Hs2. cbn [bind]. destruct (p_fstat w1 i1); cbn [bind] in H; [|discriminate]. inversion H; subst. reflexivity.
+  Qed.
+End Transparent.
